@@ -422,11 +422,22 @@ def abortMonitor (lines : List String) : Option String :=
 /-- `verifdrv Wsd <log>`: the `note init wsd <k0>` line gives the initial log2 size. -/
 def drive (lines : List String) : IO UInt32 := do
   match initArgs lines with
-  | ["wsd", n] =>
+  | "wsd" :: n :: rest =>
     match n.toNat? with
     | some k0 =>
+      -- the harness may start `top = bottom = base` (a long-lived run queue: the indices only
+      -- ever grow); `base` is a multiple of every array size, so slot indices are unchanged and
+      -- the model, which counts from 0, sees the logged index values rebased
+      let base : Int := ((rest.head?.bind String.toNat?).getD 0 : Nat)
+      let rebase (r : RawEv) : Option Ev :=
+        match ofRaw r with
+        | some (.ldBottom t x m) => some (.ldBottom t (x - base) m)
+        | some (.stBottom t x m) => some (.stBottom t (x - base) m)
+        | some (.ldTop t x m) => some (.ldTop t (x - base) m)
+        | some (.casTop t f e d ok m) => some (.casTop t (f - base) (e - base) (d - base) ok m)
+        | x => x
       let body := lines.filter (fun l => !isInit l)
-      let v := validate (sys k0) ofRaw body
+      let v := validate (sys k0) rebase body
       let notes := body.filterMap (fun l => (parseLine l).bind noteOfRaw)
       let mon := QueueHist.check { disc := .bag, drained := true, checkEmpty := true, failOnlyAlone := true }
         (QueueHist.opsOf notes)
